@@ -1,6 +1,7 @@
 (* C15 — property theorems (statements only; proofs live in Proofs.v). *)
 From Coq Require Import ZArith NArith QArith Bool List.
-Require Import QV.C15.Model QV.C15.Spec QV.C15.ModelQ QV.C15.Proofs QV.C15.Proofs_upd QV.C15.Proofs_prep QV.C15.Proofs_q.
+Require Import QV.C15.Model QV.C15.Spec QV.C15.ModelQ QV.C15.Proofs QV.C15.Proofs_upd QV.C15.Proofs_prep QV.C15.Proofs_q
+  QV.C15.Proofs_parse QV.C15.Proofs_e2e QV.C15.ModelMC QV.C15.Proofs_mc.
 Import ListNotations.
 Open Scope Z_scope.
 
@@ -219,13 +220,113 @@ Theorem C15_noninteger_refuted : exists q, count_fresh q = None /\ count_update 
 Proof. exact count_noninteger_refuted. Qed.
 Print Assumptions C15_noninteger_refuted.
 
-(* NOT proved (evaluated executably by check_spec, clause 3, on every Tabor case): the parser step.  With
-   C15_adv_tables_commute the fresh compilation parses `map (update us) tabs`; what is missing is that
-   parse_aseq_program of the updated tables, when it shares the same tables, yields the updated parsed state. *)
-Definition C15_tabor_recompile_statement : Prop :=
-  forall us tabs st st2 st' ms,
-    parse_aseq 0 tabs (mkT [] [] [] [] false) = Ok st ->
-    parse_aseq 0 (map (update us) tabs) (mkT [] [] [] [] false) = Ok st2 ->
-    map snd (t_adv st2) = map snd (t_adv st) ->
-    update_tabor us st = (st', ms) ->
-    tab_view st' = tab_view st2.
+(* The parser step (was C15_tabor_recompile_statement).  parse_aseq_program of the updated sequence tables, when it
+   shares the same sequencer tables (equal table numbers in the advanced sequencer table), yields exactly what
+   update_volatile_parameters makes of the parsed original tables: advanced table, sequencer tables (count, waveform
+   index, volatile mark), waveform list and recorded positions.  guard_C15_shared_table is a CONSEQUENCE here: equal
+   sharing makes positions that address the same cell agree on the new value. *)
+Theorem C15_tabor_recompile : forall us tabs st st2 st' ms,
+  parse_aseq 0 tabs (mkT [] [] [] [] false) = Ok st ->
+  parse_aseq 0 (map (update us) tabs) (mkT [] [] [] [] false) = Ok st2 ->
+  map snd (t_adv st2) = map snd (t_adv st) ->
+  update_tabor us st = (st', ms) ->
+  tab_view st' = tab_view st2 /\ guard_C15_shared_table us st = true.
+Proof. exact tabor_recompile. Qed.
+Print Assumptions C15_tabor_recompile.
+
+(* Tabor end to end (root encapsulation, mode choice, flatten_and_balance(2), prepare_program_for_advanced_sequence_mode,
+   parser; single and advanced sequence mode): if the compilation raised no VolatileModificationWarning, the
+   compilation of the updated program takes the same decisions and shares the same sequencer tables, then the tables
+   after update_volatile_parameters ARE the tables of the fresh compilation of the updated program. *)
+Theorem C15_tabor_compile_commutes : forall us f mode mn mx t st tr st2 w2 st' ms,
+  tabor_compile f mode mn mx t = Ok (st, false, tr) ->
+  tabor_compile f mode mn mx (update us t) = Ok (st2, w2, tr) ->
+  map snd (t_adv st2) = map snd (t_adv st) ->
+  update_tabor us st = (st', ms) ->
+  tab_view st' = tab_view st2 /\ w2 = false /\ guard_C15_shared_table us st = true.
+Proof. exact tabor_compile_update. Qed.
+Print Assumptions C15_tabor_compile_commutes.
+
+Theorem C15_tabor_compile_nonvacuous : exists t us st tr st2 st' ms,
+  create_program coherent_pt [(1%N, 1)] [1%N] = Ok (Some t) /\
+  tabor_compile 100 None 1 8 t = Ok (st, false, tr) /\
+  tabor_compile 100 None 1 8 (update us t) = Ok (st2, false, tr) /\
+  map snd (t_adv st2) = map snd (t_adv st) /\ update_tabor us st = (st', ms) /\ ms <> [] /\
+  cells_distinct (t_adv st) (t_pos st) = false.
+Proof. exact tabor_compile_update_nonvacuous. Qed.
+Print Assumptions C15_tabor_compile_nonvacuous.
+
+(* the equal-sharing hypothesis cannot be dropped (known finding C15-tabor-shared-volatile-table) *)
+Theorem C15_tabor_compile_refuted : exists t us st tr st2 st' ms,
+  create_program shared_pt [(1%N, 1)] [1%N] = Ok (Some t) /\
+  tabor_compile 100 None 1 8 t = Ok (st, false, tr) /\
+  tabor_compile 100 None 1 8 (update us t) = Ok (st2, false, tr) /\
+  update_tabor us st = (st', ms) /\
+  map snd (t_adv st2) <> map snd (t_adv st) /\ tab_view st' <> tab_view st2.
+Proof. exact tabor_compile_update_needs_sharing. Qed.
+Print Assumptions C15_tabor_compile_refuted.
+
+(* an input-level sufficient condition for "the compilation of the updated tables takes the same decisions": when
+   every sequence table already has a valid length, prepare_program_for_advanced_sequence_mode takes no
+   count-dependent decision (all DSkip) for the tables and for every update of them *)
+Theorem C15_prepare_decisions_long_tables : forall us f mn mx tabs,
+  long_enough mn mx tabs = true -> (length tabs < f)%nat ->
+  prepare f mn mx 0 tabs false = Ok (tabs, false, repeat DSkip (length tabs)) /\
+  prepare f mn mx 0 (map (update us) tabs) false = Ok (map (update us) tabs, false, repeat DSkip (length tabs)).
+Proof. exact prepare_long_decisions. Qed.
+Print Assumptions C15_prepare_decisions_long_tables.
+
+(* make_compatible (ModelMC.v: _is_compatible, _make_compatible, to_waveform; atoms of arbitrary lengths `al`).
+   Code as it is (rp = false): if no volatile count ends up inside a concatenated waveform
+   (guard_C15_make_compatible_baked, executable) and the run on the updated program takes the same decisions (levels
+   of the visited children, keep-the-count choice), then make_compatible commutes with the update: the updated
+   made-compatible program IS the made-compatible updated program (and plays the same) *)
+Theorem C15_make_compatible_commutes : forall us al mn q t t' w tr t2 w2,
+  guard_C15_make_compatible_baked al mn q (cprog_of t) = true ->
+  make_compatible false al mn q (cprog_of t) = Ok (t', w, tr) ->
+  make_compatible false al mn q (cprog_of (update us t)) = Ok (t2, w2, tr) ->
+  t2 = cupdate us t' /\ cplay t2 = cplay (cupdate us t').
+Proof. exact make_compatible_program_update_current. Qed.
+Print Assumptions C15_make_compatible_commutes.
+
+(* without the guard the statement is false of the code as it is, even when NO VolatileModificationWarning was
+   emitted: RepetitionPT(RepetitionPT(atom, n), 3), n volatile, minimal length 576 concatenates the volatile child
+   with its current count (known finding C15-make-compatible-bakes-volatile-child) *)
+Theorem C15_make_compatible_refuted : exists us t' tr t2 w2,
+  make_compatible false ex_al 576 16 ex_mc_baked = Ok (t', false, tr) /\
+  make_compatible false ex_al 576 16 (cupdate us ex_mc_baked) = Ok (t2, w2, tr) /\
+  t2 <> cupdate us t' /\ cplay t2 <> cplay (cupdate us t') /\
+  guard_C15_make_compatible_baked ex_al 576 16 ex_mc_baked = false.
+Proof. exact make_compatible_current_refuted. Qed.
+Print Assumptions C15_make_compatible_refuted.
+
+Theorem C15_make_compatible_nonvacuous : exists us t' tr,
+  guard_C15_make_compatible_baked ex_al 384 16 ex_mc_ok = true /\
+  make_compatible false ex_al 384 16 ex_mc_ok = Ok (t', false, tr) /\
+  make_compatible false ex_al 384 16 (cupdate us ex_mc_ok) = Ok (cupdate us t', false, tr) /\
+  t' <> ex_mc_ok /\ cplay (cupdate us t') <> cplay t'.
+Proof. exact make_compatible_current_nonvacuous. Qed.
+Print Assumptions C15_make_compatible_nonvacuous.
+
+(* with the repair prepared in this round (rp = true: warn when a concatenated sub-program holds a volatile count)
+   the guard becomes "no VolatileModificationWarning", as for flatten_and_balance and the Tabor preparation; the
+   repair changes the warning flag only *)
+Theorem C15_make_compatible_repaired_commutes : forall us al mn q t t' tr t2 w2,
+  make_compatible true al mn q (cprog_of t) = Ok (t', false, tr) ->
+  make_compatible true al mn q (cprog_of (update us t)) = Ok (t2, w2, tr) ->
+  t2 = cupdate us t' /\ cplay t2 = cplay (cupdate us t').
+Proof. exact make_compatible_program_update. Qed.
+Print Assumptions C15_make_compatible_repaired_commutes.
+
+Theorem C15_make_compatible_repair_only_warns : forall al mn q t t' w tr,
+  make_compatible false al mn q t = Ok (t', w, tr) -> exists w', make_compatible true al mn q t = Ok (t', w', tr).
+Proof. exact make_compatible_rp_irrel. Qed.
+Print Assumptions C15_make_compatible_repair_only_warns.
+
+(* with the repair the no-warning hypothesis cannot be dropped either (the baked child is reported) *)
+Theorem C15_make_compatible_repaired_refuted : exists us t' tr t2 w2,
+  make_compatible true ex_al 576 16 ex_mc_baked = Ok (t', true, tr) /\
+  make_compatible true ex_al 576 16 (cupdate us ex_mc_baked) = Ok (t2, w2, tr) /\
+  t2 <> cupdate us t' /\ cplay t2 <> cplay (cupdate us t').
+Proof. exact make_compatible_update_needs_no_warning. Qed.
+Print Assumptions C15_make_compatible_repaired_refuted.
